@@ -129,3 +129,216 @@ def loadBase (modelPath : Str) : Str :=
 def loadBaseUnfixed (modelPath : Str) : Str := dirname modelPath
 
 end IrVerif.Path
+
+/-! ## File system, kernel path walk, `os.path.realpath`, the three-layer check, reads -/
+namespace IrVerif.Path
+
+/-- A location: the names from the root to an object (root = []). -/
+abbrev Loc := List Str
+
+inductive Node where
+  | dir : Node
+  | file (ino : Nat) : Node
+  | link (target : Str) : Node
+  deriving Repr, DecidableEq
+
+/-- The file system: location -> node (the root is always a directory), inode -> link count and
+bytes.  Arbitrary functions: the theorems hold for every tree. -/
+structure FS where
+  node : Loc → Option Node
+  dnlink : Loc → Nat
+  nlink : Nat → Nat
+  data : Nat → List Nat
+
+def FS.get (fs : FS) (l : Loc) : Option Node := if l = [] then some Node.dir else fs.node l
+
+/-- where resolution of a path (or of a symlink target) starts -/
+def startLoc (cur : Loc) (p : Str) : Loc := if isabs p then [] else cur
+
+/-- Kernel path walk (path_resolution(7)).  `cur` is the current directory location, the list
+holds the remaining components of the path string split at '/'.  Every component (also "" and
+".") needs `cur` to be a directory (ENOTDIR otherwise); ".." moves to the parent (the root is its
+own parent); a name is looked up in `cur` (ENOENT); a symbolic link is followed unless it is the
+last component and `follow` is false: its target is walked (nested) from the directory holding
+the link, or from the root when the target is absolute; `fuel` bounds the nesting (ELOOP). -/
+def walk (fs : FS) : Nat → Loc → List Str → Bool → Option Loc
+  | _, cur, [], _ => some cur
+  | fuel, cur, c :: rest, follow =>
+    match fs.get cur with
+    | some Node.dir =>
+      if c = [] ∨ c = DOT then walk fs fuel cur rest follow
+      else if c = DOTDOT then walk fs fuel cur.dropLast rest follow
+      else
+        match fs.get (cur ++ [c]) with
+        | none => none
+        | some (Node.link t) =>
+          if rest = [] ∧ follow = false then some (cur ++ [c])
+          else
+            match fuel with
+            | 0 => none
+            | fuel' + 1 =>
+              match walk fs fuel' (startLoc cur t) (splitSep t) true with
+              | none => none
+              | some l => walk fs (fuel' + 1) l rest follow
+        | some _ => walk fs fuel (cur ++ [c]) rest follow
+    | _ => none
+termination_by fuel _ comps _ => (fuel, comps.length)
+
+/-- Kernel resolution of a path string relative to the working directory `cwd` (a location).
+The empty path is ENOENT. -/
+def kresolve (fs : FS) (fuel : Nat) (cwd : Loc) (p : Str) (follow : Bool) : Option Loc :=
+  if p = [] then none else walk fs fuel (startLoc cwd p) (splitSep p) follow
+
+/-- `os.lstat(p)`: the node itself (symlinks not followed at the last component). -/
+def lstat (fs : FS) (fuel : Nat) (cwd : Loc) (p : Str) : Option Node :=
+  match kresolve fs fuel cwd p false with
+  | some l => fs.get l
+  | none => none
+
+/-- `os.stat(p).st_nlink` (None = OSError).  Directories report their own link count
+(`dnlink`; 2 or more on most file systems, which makes check 3 reject them). -/
+def statNlink (fs : FS) (fuel : Nat) (cwd : Loc) (p : Str) : Option Nat :=
+  match kresolve fs fuel cwd p true with
+  | some l =>
+    match fs.get l with
+    | some (Node.file i) => some (fs.nlink i)
+    | some Node.dir => some (fs.dnlink l)
+    | _ => none
+  | none => none
+
+/-- `open(p, "rb")`: the inode of the regular file the kernel reaches (None = OSError). -/
+def openFile (fs : FS) (fuel : Nat) (cwd : Loc) (p : Str) : Option Nat :=
+  match kresolve fs fuel cwd p true with
+  | some l =>
+    match fs.get l with
+    | some (Node.file i) => some i
+    | _ => none
+  | none => none
+
+/-- The `seen` dictionary of `_joinrealpath`: newest binding first. -/
+abbrev Seen := List (Str × Option Str)
+
+def Seen.find (s : Seen) (k : Str) : Option (Option Str) :=
+  match s with
+  | [] => none
+  | (k', v) :: t => if k' = k then some v else Seen.find t k
+
+/-- the `..` branch of `_joinrealpath` (posixpath.py:459-467) -/
+def parentPath (path : Str) : Str :=
+  if path ≠ [] then
+    let ht := psplit path
+    if ht.2 = DOTDOT then pjoin (pjoin ht.1 DOTDOT) DOTDOT else ht.1
+  else DOTDOT
+
+/-- `posixpath._joinrealpath(path, rest, strict=False, seen)` (posixpath.py:440-500) after the
+`isabs(rest)` prologue; `rest` is kept as the list of its remaining '/'-separated pieces (the loop
+takes them one by one with `partition`; the remaining string is their `'/'.join`).  `kfuel` is the
+kernel's ELOOP bound used by `os.lstat`; `fuel` bounds the Python recursion depth (a model
+artefact: CPython's recursion limit).  Returns (path, ok, seen). -/
+def joinReal (fs : FS) (kfuel : Nat) (cwd : Loc) : Nat → Str → List Str → Seen → Str × Bool × Seen
+  | _, path, [], seen => (path, true, seen)
+  | fuel, path, name :: rest, seen =>
+    if name = [] ∨ name = DOT then joinReal fs kfuel cwd fuel path rest seen
+    else if name = DOTDOT then joinReal fs kfuel cwd fuel (parentPath path) rest seen
+    else
+      let newpath := pjoin path name
+      match lstat fs kfuel cwd newpath with
+      | some (Node.link target) =>
+        match Seen.find seen newpath with
+        | some (some p) => joinReal fs kfuel cwd fuel p rest seen
+        | some none => (pjoin newpath (joinSep rest), false, seen)
+        | none =>
+          match fuel with
+          | 0 => (pjoin newpath (joinSep rest), false, seen)
+          | fuel' + 1 =>
+            let r := joinReal fs kfuel cwd fuel' (if isabs target then ['/'] else path)
+              (splitSep (if isabs target then target.tail else target)) ((newpath, none) :: seen)
+            if r.2.1 = false then (pjoin r.1 (joinSep rest), false, r.2.2)
+            else joinReal fs kfuel cwd (fuel' + 1) r.1 rest ((newpath, some r.1) :: r.2.2)
+      | _ => joinReal fs kfuel cwd fuel newpath rest seen
+termination_by fuel _ rest _ => (fuel, rest.length)
+
+/-- `os.path.realpath(filename)` (posixpath.py:431-436), non-strict. `cwdS` is `os.getcwd()`,
+`cwd` the location it names. -/
+def realpath (fs : FS) (kfuel fuel : Nat) (cwdS : Str) (cwd : Loc) (filename : Str) : Str :=
+  let r := joinReal fs kfuel cwd fuel (if isabs filename then ['/'] else [])
+    (splitSep (if isabs filename then filename.tail else filename)) []
+  abspath cwdS r.1
+
+/-- Which step of the guarded read stops it. -/
+inductive Verdict where
+  | skipped   -- empty base_dir: no check at all (_core.py:770-775)
+  | rej1      -- check 1 raises (784-789)
+  | rej2      -- check 2 raises (795-800)
+  | rej3      -- check 3 raises (810-815)
+  | pass
+  deriving Repr, DecidableEq
+
+/-- Check 2 (_core.py:792-800). -/
+def check2 (fs : FS) (kfuel fuel : Nat) (cwdS : Str) (cwd : Loc) (base loc : Str) : Bool :=
+  contained (realpath fs kfuel fuel cwdS cwd base) (realpath fs kfuel fuel cwdS cwd (tensorPath base loc))
+
+/-- Check 3 (_core.py:806-815): `nlink > 1` raises; a failing stat counts as 1. -/
+def check3 (fs : FS) (kfuel fuel : Nat) (cwdS : Str) (cwd : Loc) (base loc : Str) : Bool :=
+  match statNlink fs kfuel cwd (realpath fs kfuel fuel cwdS cwd (tensorPath base loc)) with
+  | some n => decide (n ≤ 1)
+  | none => true
+
+/-- `ExternalTensor._check_path_containment` (_core.py:750-815): the three layers in order. -/
+def checkContainment (fs : FS) (kfuel fuel : Nat) (cwdS : Str) (cwd : Loc) (base loc : Str) : Verdict :=
+  if base = [] then Verdict.skipped
+  else if check1 cwdS base loc = false then Verdict.rej1
+  else if check2 fs kfuel fuel cwdS cwd base loc = false then Verdict.rej2
+  else if check3 fs kfuel fuel cwdS cwd base loc = false then Verdict.rej3
+  else Verdict.pass
+
+/-- Observable events of a read. -/
+inductive Ev where
+  | check (v : Verdict)
+  | openEv (path : Str) (ino : Option Nat)
+  deriving Repr, DecidableEq
+
+inductive ReadResult where
+  | raised
+  | ok (bytes : List Nat)
+  deriving Repr, DecidableEq
+
+/-- The read entry points: `numpy()` (890-899), `tobytes()` (901-915), `__array__` (865-870) and
+serialisation to raw bytes (external_data.py:270, through `numpy()`) go through `_load` (817-831);
+`tofile` (917-930) has its own check-then-open. -/
+inductive EntryPoint where
+  | numpy | tobytes | array | serializeRaw | tofile
+  deriving Repr, DecidableEq
+
+/-- The bytes an entry point produces from the opened file: `_load` maps the whole file and
+`np.frombuffer(raw, offset, count)` raises when the file is shorter than offset+length and mmap
+raises on an empty file (numpy, `__array__`, serialisation); `tobytes` slices `raw[offset:offset+length]`
+(a short file gives a short slice); `tofile` raises OSError when it cannot read `length` bytes. -/
+def produce (ep : EntryPoint) (content : List Nat) (offset length : Nat) : ReadResult :=
+  match ep with
+  | EntryPoint.tobytes =>
+    if content = [] then ReadResult.raised
+    else if content.length < offset + length then ReadResult.raised
+    else ReadResult.ok ((content.drop offset).take length)
+  | EntryPoint.tofile =>
+    if content.length < offset + length then ReadResult.raised
+    else ReadResult.ok ((content.drop offset).take length)
+  | _ =>
+    if content = [] then ReadResult.raised
+    else if content.length < offset + length then ReadResult.raised
+    else ReadResult.ok ((content.drop offset).take length)
+
+/-- A guarded read: `_check_path_containment()` first, then `open(self.path, "rb")`, for every
+entry point (`_load` 818-826, `tofile` 928-930).  Returns the result and the event trace. -/
+def read (fs : FS) (kfuel fuel : Nat) (cwdS : Str) (cwd : Loc) (base loc : Str) (offset length : Nat)
+    (ep : EntryPoint) : ReadResult × List Ev :=
+  let v := checkContainment fs kfuel fuel cwdS cwd base loc
+  match v with
+  | Verdict.rej1 | Verdict.rej2 | Verdict.rej3 => (ReadResult.raised, [Ev.check v])
+  | _ =>
+    let p := tensorPath base loc
+    match openFile fs kfuel cwd p with
+    | none => (ReadResult.raised, [Ev.check v, Ev.openEv p none])
+    | some i => (produce ep (fs.data i) offset length, [Ev.check v, Ev.openEv p (some i)])
+
+end IrVerif.Path
